@@ -231,6 +231,15 @@ func (d *Dialer) DialContext(ctx context.Context, urlStr string, requestHeader h
 		req.Header["Sec-WebSocket-Protocol"] = []string{strings.Join(d.Subprotocols, ", ")}
 	}
 	for k, vs := range requestHeader {
+		if ck := http.CanonicalHeaderKey(k); ck != k {
+			switch ck {
+			case "Host", "Upgrade", "Connection", "Sec-Websocket-Key", "Sec-Websocket-Version", "Sec-Websocket-Extensions", "Sec-Websocket-Protocol":
+				// The headers that belong to the handshake are recognized
+				// below by their canonical name, however the caller spelled
+				// the key (for example "Sec-WebSocket-Key").
+				k = ck
+			}
+		}
 		switch {
 		case k == "Host":
 			if len(vs) > 0 {
